@@ -11,6 +11,7 @@
   `opiter` pushes `emptyIter{}` before raising `invalidPathIterError`).
 -/
 import Gojq.Proofs.VM
+import Gojq.Proofs.VMReentry
 namespace Gojq.C07
 open Gojq Gojq.VM
 
@@ -131,6 +132,98 @@ theorem exhausted_terminal (P : Params) (fuel : Nat) (s s' : St) (h : next P fue
   have ht := (loop_fin_terminal P fuel _ s _ s' h).1 rfl
   exact terminal_history Q s' (by unfold Terminal at *; rw [hcode]; exact ht) fuel' n
 
+/-! ### 5. after an error -/
+
+/-- The fork/stack invariant under which the next theorem holds (`EnvInv`: the data stack
+    satisfies stack.go's representation invariant, every pending fork points at a fork-like
+    instruction and into the stack, and a fork pushed by `opiter` has a value to restore) holds
+    in every state reachable from `execute` by `Next` calls — for arbitrary code and oracles. -/
+theorem reachable_invariant (P : Params) (fuel : Nat) (input : V) (vars : List V) (n : Nat) :
+    EnvInv P (after P fuel n (initSt input vars)).env :=
+  after_inv P fuel n _ (initSt_inv P input vars)
+
+/-- ⟦full⟧ After an error value has been emitted, the next `Next` call does not panic.  Not provable
+    for arbitrary code as stated (whatever runs after the re-entry may panic for its own reasons,
+    e.g. `oppop` on an empty stack in hand-written code); kept as the target. -/
+def after_error_advancable_statement : Prop :=
+  ∀ (P : Params) (fuel : Nat) (input : V) (vars : List V) (n : Nat) (e : Err) (s' : St),
+    next P fuel (after P fuel n (initSt input vars)) = (.error e, s') →
+    ∀ (Q : Params), Q.code = P.code → ∀ fuel' site, (next Q fuel' s').1 ≠ .panic site
+
+/-- Proved part: the RE-ENTRY itself is safe.  When a call returns an error, the saved `pc` is
+    either past the end or at an opcode that can `break loop`, and the first turn of the next call
+    — the re-entered instruction, with `backtrack = true` and no error — is not a panic:
+      * for every such opcode except `opiter`/`opforklabel` the re-entry does not even look at the
+        state (it breaks again, or `opfork` jumps to its alternative: `error("x"), 1` yields `1`);
+      * for `opiter` the pop at its head succeeds: the top is either what the last popped fork
+        restored or the `emptyIter{}` pushed before `iteratorError`/`invalidPathIterError` (the D7b fix);
+    and the invariant is re-established for the following calls.
+    GAP: (1) `opforklabel` pops the value beneath the label when re-entered; that it exists is a
+    property of compiled code (the input is always beneath), not of arbitrary code. (2) What runs
+    after the re-entered instruction is ordinary execution and is not covered here. -/
+theorem after_error_advancable_partial (P : Params) (fuel : Nat) (s : St) (hinv : EnvInv P s.env)
+    (e : Err) (s' : St) (h : next P fuel s = (.error e, s')) :
+    EnvInv P s'.env ∧ 0 ≤ s'.env.pc ∧ ∀ (Q : Params), Q.code = P.code →
+      match Q.code[s'.env.pc.toNat]? with
+      | some .iter => ∃ v e1, pop s'.env = .ok v e1
+      | some (.forklabel _ _) => True
+      | _ => ∀ site st, step Q (entry Q s') s' ≠ .fin (.panic site) st := by
+  have hl := loop_inv P fuel (entry P s) s hinv (entry_linv P s)
+  have hbt : s'.env.backtrack = true := by
+    have := loop_backtrack P fuel (entry P s) s
+    unfold next at h; rw [h] at this; exact this
+  unfold next at h
+  rw [h] at hl
+  obtain ⟨hE, hR⟩ := hl
+  obtain ⟨hpc, hR⟩ := hR e rfl
+  refine ⟨hE, hpc, fun Q hcode => ?_⟩
+  rw [hcode]
+  have hentry : (entry Q s').pc = s'.env.pc ∧ (entry Q s').backtrack = true ∧ (entry Q s').err = none :=
+    ⟨rfl, hbt, rfl⟩
+  cases hc : P.code[s'.env.pc.toNat]? with
+  | none =>
+    -- past the end: nothing is re-entered
+    simp only
+    intro site st hst
+    have hge : ¬ ((entry Q s').pc < (Q.code.size : Int)) := by
+      rw [hentry.1, hcode]
+      intro hlt
+      have : s'.env.pc.toNat < P.code.size := (Int.toNat_lt hpc).mpr hlt
+      simp [this] at hc
+    unfold step at hst
+    simp only [hge, if_false] at hst
+    exact unwind_no_panic Q _ _ site st hst
+  | some ins =>
+    obtain ⟨hb, hi⟩ := hR ins hc
+    have hlt : s'.env.pc < (Q.code.size : Int) := by
+      rw [hcode]
+      have := (Array.getElem?_eq_some_iff.mp hc).1
+      exact (Int.toNat_lt hpc).mp this
+    have hgetD : Q.code.getD (entry Q s').pc.toNat .bad = ins := by
+      rw [hentry.1, hcode]; simp [Array.getD, (Array.getElem?_eq_some_iff.mp hc).1, (Array.getElem?_eq_some_iff.mp hc).2]
+    have generic : ins ≠ .iter → (∀ a b, ins ≠ .forklabel a b) →
+        ∀ site st, step Q (entry Q s') s' ≠ .fin (.panic site) st := by
+      intro h1 h2 site st
+      apply step_no_panic_of_exec Q (entry Q s') s' (by rw [hentry.1]; exact hpc) (by rw [hentry.1]; exact hlt)
+      rw [hgetD]
+      obtain ⟨ctl, l', hex⟩ := breaker_reentry ins hb h1 h2 (Q.ext s'.polls) (entry Q s') s'.env hentry.2.1 hentry.2.2
+      exact ⟨_, _, hex⟩
+    cases ins with
+    | iter => exact iter_reentry_pop s'.env (hi rfl)
+    | forklabel a b => trivial
+    | _ => exact generic (by intro h; cases h) (by intro a b h; cases h)
+
+/-- `opiter`'s own error branches leave `emptyIter{}` on the stack (the fix of D7b, and what the
+    `iteratorError` branch always did): on a well-formed stack, when `opiter`, entered without a
+    pending error, breaks the loop with an error and has pushed no fork, the top is poppable. -/
+theorem opiter_error_balanced (x : ExtRec) (l : L) (e : Env) (l' : L) (e' : Env) (hw : StackWF e.stack)
+    (hno : l.err = none) (h : exec .iter x l e = .ok (.brk, l') e') (herr : l'.err.isSome = true)
+    (hf : e'.forks = []) : ∃ v e1, pop e' = .ok v e1 := by
+  rcases iter_brk_err x l e l' e' hw h herr with h1 | h1 | h1
+  · simp [hno] at h1
+  · exact iter_reentry_pop e' h1
+  · exact absurd hf h1
+
 /-! ### 6. one-shot iterators -/
 
 /-- The iterator `RunWithContext` returns for an arity mismatch or a compile error (`unitIter`)
@@ -153,6 +246,15 @@ def codeComma : Array Instr :=
   #[.scope 1 0 0, .fork 4, .const (.num (.int 1)), .jump 5, .const (.num (.int 2)), .ret]
 /-- `.[]` -/
 def codeIter : Array Instr := #[.scope 1 0 0, .iter, .ret]
+/-- `1 | .[]` -/
+def codeIterOnOne : Array Instr := #[.scope 1 0 0, .const (.num (.int 1)), .iter, .ret]
+/-- `error("x"), 1` -/
+def codeErrorThenOne : Array Instr :=
+  #[.scope 1 1 0, .fork 7, .store 1 0, .push (.str [120]), .load 1 0, .callNative .other 1, .jump 8,
+    .const (.num (.int 1)), .ret]
+/-- the native `error` called at poll 5 returns the error value "x" -/
+def extErrorThenOne : Nat → ExtRec := fun k =>
+  if k = 5 then { call := some (.err (.value (.jv (.str [120])))) } else {}
 def sNull : St := initSt (.jv .null) []
 def sEmptyArr : St := initSt (.jv (.arr [])) []
 def tags (hs : List Outcome) : List Nat := hs.map Outcome.tag   -- 0 value 1 error 2 done 3 ctxErr 4 panic
@@ -167,6 +269,13 @@ example : (next ⟨codeComma, fun j => decide (2 ≤ j), noExt⟩ 50 sNull).2.po
 -- the hypotheses of cancel_prompt hold at the entry of `1, 2` when poll 0 is cancelled
 example : (0 : Int) ≤ (entry ⟨codeComma, fun _ => true, noExt⟩ sNull).pc ∧
     (entry ⟨codeComma, fun _ => true, noExt⟩ sNull).pc < (codeComma.size : Int) := by decide
+-- `1 | .[]`: the error raised by opiter, then done for ever (after_error_advancable_partial, opiter_error_balanced)
+example : tags (history ⟨codeIterOnOne, never, noExt⟩ 50 4 sNull) = [1, 2, 2, 2] := by decide
+-- `error("x"), 1`: the error, then the alternative of the re-entered opfork yields 1, then done
+example : tags (history ⟨codeErrorThenOne, never, extErrorThenOne⟩ 50 4 sNull) = [1, 0, 2, 2] := by decide
+-- the saved pc after these errors is the re-entered opiter / opfork
+example : (next ⟨codeIterOnOne, never, noExt⟩ 50 sNull).2.env.pc = 2 := by decide
+example : (next ⟨codeErrorThenOne, never, extErrorThenOne⟩ 50 sNull).2.env.pc = 1 := by decide
 -- `.[]` on `[]`: done, and done again on every extra call (the D7 witness; exhausted_terminal)
 example : tags (history ⟨codeIter, never, noExt⟩ 50 4 sEmptyArr) = [2, 2, 2, 2] := by decide
 example : (next ⟨codeIter, never, noExt⟩ 50 sEmptyArr).1.tag = 2 := by decide
